@@ -1,7 +1,7 @@
 """C02 — Work happens at most once per build and only for a true, reported reason."""
 from rules import engine as E
 
-UNITS = ["lib/Core/BuildEngine.cpp"]
+UNITS = ["lib/Core/BuildEngine.cpp", "lib/Core/SQLiteBuildDB.cpp"]
 THOROUGH_ALL_UNITS = False
 EXPLANATION = ("Decides: single guarded call site of Rule::createTask followed by the in-progress transition; the frozen "
                "state-transition table of RuleInfo::state; pairing of every reported run reason with the branch condition "
@@ -22,6 +22,8 @@ def run(ctx):
     E.r_state_order(prog, rep)
     E.r_parallel_vectors(prog, rep)
     E.r_scan_waits(prog, rep)
+    from rules import C03
+    C03.r_sql_columns(prog, rep)
 
 
 from rules.engine_variants import C02 as VARIANTS  # noqa: E402
